@@ -289,3 +289,78 @@ func Dominates(a, b ssa.Instruction) bool {
 	}
 	return a.Block().Dominates(b.Block())
 }
+
+// Fact is a branch condition known to hold (True) or not on every path to a block.
+type Fact struct {
+	Cond ssa.Value
+	True bool
+}
+
+// Facts lists the atomic conditions implied at block target by the If-edges
+// that edge-dominate it.  Short-circuit conditions materialised as bool phis
+// (`case a && b && c:` in a tagless switch, `x || y` operands) are expanded
+// into their conjuncts/disjuncts; `!x` is unfolded.
+func Facts(target *ssa.BasicBlock) []Fact {
+	var out []Fact
+	for _, ce := range DominatingEdges(target) {
+		expandCond(ce.If.Cond, ce.Succ == 0, &out, 0)
+	}
+	return out
+}
+
+// ExpandCond expands one (condition, truth) pair into atomic facts.
+func ExpandCond(v ssa.Value, truth bool) []Fact {
+	var out []Fact
+	expandCond(v, truth, &out, 0)
+	return out
+}
+
+func expandCond(v ssa.Value, truth bool, out *[]Fact, depth int) {
+	if depth > 12 {
+		*out = append(*out, Fact{v, truth})
+		return
+	}
+	switch x := v.(type) {
+	case *ssa.UnOp:
+		if x.Op == token.NOT {
+			expandCond(x.X, !truth, out, depth+1)
+			return
+		}
+	case *ssa.Phi:
+		// all-but-one edges constant == !truth  ⇒ short-circuit chain
+		var rest []int
+		allConst := true
+		for i, e := range x.Edges {
+			if b, ok := ConstBool(e); ok {
+				if b == truth {
+					allConst = false // an edge that directly yields `truth` without a condition: not a pure chain
+				}
+			} else {
+				rest = append(rest, i)
+			}
+		}
+		if allConst && len(rest) == 1 {
+			for i, e := range x.Edges {
+				if _, ok := ConstBool(e); !ok {
+					continue
+				}
+				pred := x.Block().Preds[i]
+				iff, ok := pred.Instrs[len(pred.Instrs)-1].(*ssa.If)
+				if !ok {
+					// unconditional jump into the phi with the short-circuit constant: cannot expand
+					*out = append(*out, Fact{v, truth})
+					return
+				}
+				// the edge into the phi block carries the constant; the other edge continues the chain
+				if pred.Succs[0] == x.Block() && pred.Succs[1] != x.Block() {
+					expandCond(iff.Cond, false, out, depth+1) // taking succ 0 would end the chain ⇒ cond is false
+				} else if pred.Succs[1] == x.Block() && pred.Succs[0] != x.Block() {
+					expandCond(iff.Cond, true, out, depth+1)
+				}
+			}
+			expandCond(x.Edges[rest[0]], truth, out, depth+1)
+			return
+		}
+	}
+	*out = append(*out, Fact{v, truth})
+}
